@@ -175,7 +175,7 @@ def case_finite(r, st, quick):
         return ("undecided", None) if und else ("ok", None)
 
     site = "calculus.quadrature.%s[%s,dim=%d]" % ("gauss_legendre" if is_gl else "tanh_sinh", "finite", dim)
-    return {"task": task, "site": site, "lines": lines, "judge": judge, "nontrivial": True, "report_timeout": (dim == 1 and not quick)}
+    return {"task": task, "site": site, "lines": lines, "judge": judge, "nontrivial": True, "report_timeout": False}
 
 
 def case_infinite(r, st, quick):
@@ -233,7 +233,7 @@ def case_infinite(r, st, quick):
         return ("undecided", None) if und else ("ok", None)
 
     site = "calculus.quadrature.%s[%s]" % ("gauss_legendre" if is_gl else "tanh_sinh", "infinite")
-    return {"task": task, "site": site, "lines": lines, "judge": judge, "nontrivial": True, "report_timeout": not quick}
+    return {"task": task, "site": site, "lines": lines, "judge": judge, "nontrivial": True, "report_timeout": False}
 
 
 def run(ctx):
